@@ -303,7 +303,7 @@ def execute_observe(obl):
                     # ---- paused: snapshot must agree with the history prefix
                     pauses_seen += 1
                     labels.append("pause:" + cause.split("/")[0])
-                    want_t = P_ev[k_real - 1][0] if k_real else 0
+                    want_t = P_ev[k_real - 1][0] if k_real else int(prog.get("start", 0) or 0) * TICK
                     if st_.current_time.nanoseconds != want_t or not st_.is_paused or not st_.is_running:
                         r.add(f"{P}/{obl}/state-snapshot", f"get_state(): time={st_.current_time.nanoseconds} paused={st_.is_paused} "
                                                           f"running={st_.is_running}; expected time {want_t} after {k_real} events")
@@ -427,7 +427,7 @@ def execute_reset(case):
         rr.uid = len(prog["initial"])      # harness-side uid allocator restarts with the model (it drives the event cap)
         ctl.reset()
         st_ = ctl.get_state()
-        if st_.events_processed != 0 or st_.current_time.nanoseconds != 0 or st_.is_running:
+        if st_.events_processed != 0 or st_.current_time.nanoseconds != int(prog.get("start", 0) or 0) * TICK or st_.is_running:
             r.add(f"{P}/reset/state-after-reset", f"events={st_.events_processed} t={st_.current_time.nanoseconds} running={st_.is_running}")
         rr.run()
         if ctl.is_paused:
